@@ -40,7 +40,7 @@ class DecayKernelAllSizes(Contract):
     name = "DecayKernelAllSizes"
     target = "glotaran.builtin.megacomplexes.decay.util:calculate_decay_matrix_no_irf"
     strength = "U"
-    trusted = ("numba compiles the kernel with Python semantics; nb.prange = range (race freedom: C10 PrangeRaces)", "exp uninterpreted; floats as reals")
+    trusted = (*__import__('contracts.unbounded', fromlist=['WP_ASSUMPTIONS']).WP_ASSUMPTIONS, "numba compiles the kernel with Python semantics; nb.prange = range (race freedom: C10 PrangeRaces)", "exp uninterpreted; floats as reals")
     drops = ("PyVC-U re-reads the kernel's source and drops the @nb.jit decorator; accepted subset: assignments, subscripts, `for i in range/prange(e)` with an invariant, if/else, return, calls with a contract",)
 
     def cases(self, tier):
